@@ -426,6 +426,10 @@ class ACSE:
         # Callbacks/Logging
         evt.trigger(self.assoc, evt.EVT_ACCEPTED, {})
 
+        # An EVT_ACCEPTED handler may have aborted the association
+        if self.assoc.is_aborted:
+            return
+
         # Association established OK
         self.assoc.is_established = True
         evt.trigger(self.assoc, evt.EVT_ESTABLISHED, {})
@@ -515,7 +519,8 @@ class ACSE:
                     self.assoc.is_established = False
                     evt.trigger(self.assoc, evt.EVT_ABORTED, {})
                     self.assoc.kill()
-                else:
+                elif not self.assoc.is_aborted:
+                    # i.e. unless an EVT_ACCEPTED handler aborted the association
                     LOGGER.info("Association Accepted")
                     self.assoc.is_established = True
                     evt.trigger(self.assoc, evt.EVT_ESTABLISHED, {})
